@@ -711,7 +711,8 @@ def verify_pooled_client(E, mode="exception", methods=None):
                 st = State()
                 st.ghost.update(checked_out=[], status={}, closes={}, inner_calls=[], client_method=client_method_hook(mode))
                 pool = st.new_obj(P, {})
-                me = st.new_obj(PC, {"client_pool": pool, "ignore_exc": BoolV(ign)})
+                me = st.new_obj(PC, {"client_pool": pool, "ignore_exc": BoolV(ign), "allow_unicode_keys": BoolV(z3.Bool("allow_unicode_keys")),
+                                     "key_prefix": BytesV(z3.String("key_prefix")), "default_noreply": BoolV(z3.Bool("default_noreply"))})
                 vals = {p: OpaqueV(z3.Const("arg_" + p, Py)) for p in (pos + kw)}
                 if has_varargs:
                     args, kwargs = [vals["va0"]], {}
@@ -745,7 +746,9 @@ def pooled_exit(E, q, meth, o, me, vals, want, params, has_varargs, ign, cfi, pl
     if c is None:
         # pool.get() raised (pool full): nothing was checked out, the error propagates
         E.oblige("%s/pool-full-propagates-and-takes-no-slot%s" % (rid("slot", q, E), E.case_suffix), s,
-                 T(o.kind == "raise" and o.val.cls == "RuntimeError" and conserved and not calls), func=q)
+                 T(o.kind == "raise" and o.val.cls in ("RuntimeError", "MemcacheIllegalInputError") and conserved and not calls), func=q)
+        E.oblige("%s/no-exit-before-the-inner-call-except-pool-full%s" % (rid("forward", q, E), E.case_suffix), s,
+                 T(o.kind == "raise" and o.val.cls == "RuntimeError"), func=q, kind="forward", meta={"method": meth, "exit": repr(o.val)})
         return
     is_async = o.kind == "raise" and not is_subclass(o.val.cls, "Exception")
     # ---- C09 / C10: the slot
